@@ -50,6 +50,7 @@ func init() {
 			{ID: "C18-R29", Title: "what a function counts up it counts down on every way out", Floor: 1, Run: whatAFunctionCountsUpItCountsDownOnEveryWayOut},
 			{ID: "C18-R30", Title: "a recorded length cuts the container it was taken from", Floor: 3, Run: aSnapshotLengthCutsTheContainerItWasTakenFrom},
 			{ID: "C18-R31", Title: "the rollback covers what compiling grows (shared with C17-R26)", Floor: 3, Run: theRollbackCoversWhatCompilingGrows},
+			{ID: "C18-R32", Title: "every piece compiles to code that leaves what its contract says (shared with C04-R2)", Floor: 35, Run: c04r2},
 		},
 	})
 }
